@@ -6,6 +6,6 @@ CHECK_DEADLOCK FALSE
 CONSTANTS
   Keys = {"A", "B"}
   KeyOf <- MC_KeyOf
-  Causes = {"close", "disc_id", "disc_key", "shutdown", "displaced"}
+  Causes = {"close", "disc_id", "disc_key", "shutdown", "displaced", "pong_timeout"}
   QuiescentEnv = FALSE
   Helper = TRUE
